@@ -103,3 +103,15 @@ Proof.
   destruct (lookup_map_some (fun kv => Some (tval_at (snd kv) t)) c cs v Hl) as (k & Hm & _).
   rewrite app_nil_r, Hm. reflexivity.
 Qed.
+
+(* ---- MultiChannelWaveform: a request that touches exactly ONE part is answered by that part's get_subset_for_channels
+   (the `len(relevant_sub_waveforms) == 1` branch), whatever the other parts are ---- *)
+Theorem multi_subset_one_part l cs x :
+  filter (fun y => negb (disjointb (channels y) cs)) l = [x] -> subset_u (WMulti l) cs = get_wrap x cs (subset_u x cs).
+Proof.
+  intros Hf. cbn [subset_u]. rewrite Hf. clear -Hf.
+  induction l as [|y r IH]; cbn [filter] in Hf; [discriminate|].
+  destruct (disjointb (channels y) cs) eqn:E; cbn [negb] in Hf.
+  - exact (IH Hf).
+  - injection Hf as -> _. reflexivity.
+Qed.
